@@ -3,13 +3,17 @@ package main
 import (
 	"bytes"
 	"fmt"
+	"io"
 	"strings"
 
 	"github.com/datastax/go-cassandra-native-protocol/compression/lz4"
 	"github.com/datastax/go-cassandra-native-protocol/compression/snappy"
 	"github.com/datastax/go-cassandra-native-protocol/crc"
 	"github.com/datastax/go-cassandra-native-protocol/segment"
+	"github.com/datastax/go-cassandra-native-protocol/primitive"
+	"verif/internal/gen"
 	"verif/internal/lp"
+	"verif/internal/show"
 )
 
 func init() {
@@ -176,6 +180,25 @@ func runC06(res *lp.Result) {
 			int(dec.Header.UncompressedPayloadLength) != len(p) {
 			res.Add(lp.Finding{Kind: "violation", What: "segment round trip lost payload, flag, lengths or consumed the wrong number of bytes", Input: id})
 		}
+		// the same bytes from sources that deliver them piecewise (a connection does): one byte per Read, a few bytes, TCP-sized
+		// pieces, and a cut chosen inside the trailing CRC-32; two segments back to back, nothing left over
+		two := append(append([]byte{}, enc...), enc...)
+		for _, piece := range []int{1, 2 + rng.Intn(9), 1460, len(enc) - 1 - rng.Intn(minInt(4, len(enc)-1))} {
+			if piece < 1 {
+				piece = 1
+			}
+			br := bytes.NewReader(two)
+			src := &chunkedReader{r: br, n: piece}
+			d1, e1 := codecs[cname].DecodeSegment(src)
+			used := len(two) - br.Len()
+			d2, e2 := codecs[cname].DecodeSegment(src)
+			if e1 != nil || e2 != nil || used != len(enc) || br.Len() != 0 || !bytes.Equal(d1.Payload.UncompressedData, p) || !bytes.Equal(d2.Payload.UncompressedData, p) {
+				res.Add(lp.Finding{Kind: "violation", What: fmt.Sprintf("segment does not decode from a source delivering %d byte(s) per Read (%s)", piece, cname),
+					Input: id + " payload=" + hx(p[:minInt(len(p), 64)]), Impl: fmt.Sprintf("first: err=%v consumed %d of %d; second: err=%v, %d left", e1, used, len(enc), e2, br.Len())})
+				break
+			}
+			res.Count("piecewise-sources")
+		}
 		if askModel {
 			flag := map[string]string{"none": "none", "lz4": "z"}[cname]
 			ask(fmt.Sprintf("seg enc %s %v %s", flag, sc, hx(p)), "ok "+hx(enc), id)
@@ -274,7 +297,8 @@ func runC07(res *lp.Result) {
 		}
 	}
 	flip := func(b []byte, bit int) { b[bit/8] ^= 1 << uint(bit%8) }
-	payloads := [][]byte{{}, {0x42}, rng.Bytes(17), rng.Bytes(300)}
+	// the last two really travel compressed through the LZ4 codec (the random ones do not compress and are sent as they are)
+	payloads := [][]byte{{}, {0x42}, rng.Bytes(17), rng.Bytes(300), bytes.Repeat([]byte("SELECT * FROM t "), 12), append(rng.Bytes(40), make([]byte, 90)...)}
 	if thorough() {
 		payloads = append(payloads, rng.Bytes(5000), make([]byte, 2000))
 	}
@@ -376,6 +400,42 @@ func runC07(res *lp.Result) {
 					}
 					try(cname, c, fmt.Sprintf("payload burst of %d at %d (len %d)", l, a, len(p)))
 					res.Count("payload/burst")
+				}
+			}
+		}
+	}
+	// a decode that is interrupted — its source, after delivering the first k bytes, lets ANOTHER segment be decoded by the
+	// same codec before it delivers the rest (what two connections sharing a codec do) — must still judge its own bytes:
+	// corrupted → refused, pristine → its own payload
+	for _, cname := range []string{"none", "lz4"} {
+		for pi, p := range payloads {
+			other := append([]byte("the other segment "), rng.Bytes(20)...)
+			var a, b bytes.Buffer
+			if codecs[cname].EncodeSegment(&segment.Segment{Header: &segment.Header{IsSelfContained: true}, Payload: &segment.Payload{UncompressedData: p}}, &a) != nil ||
+				codecs[cname].EncodeSegment(&segment.Segment{Header: &segment.Header{IsSelfContained: pi%2 == 0}, Payload: &segment.Payload{UncompressedData: other}}, &b) != nil {
+				continue
+			}
+			for cut := 1; cut < a.Len(); cut++ {
+				if cut > 12 && cut < a.Len()-6 && rng.Intn(8) != 0 {
+					continue
+				}
+				for _, bit := range []int{-1, rng.Intn(8 * cut), 8*cut + rng.Intn(8*(a.Len()-cut))} {
+					in := append([]byte{}, a.Bytes()...)
+					what := fmt.Sprintf("pristine segment, source interrupted after %d bytes by another decode on the same codec", cut)
+					if bit >= 0 {
+						flip(in, bit)
+						what = fmt.Sprintf("bit %d flipped, source interrupted after %d bytes by another decode on the same codec", bit, cut)
+					}
+					src := &interruptedReader{data: in, cut: cut, hook: func() { codecs[cname].DecodeSegment(bytes.NewReader(b.Bytes())) }}
+					res.Case(cname+"/"+what+fmt.Sprint(pi), true)
+					res.Count("interrupted-decodes")
+					sg, err := codecs[cname].DecodeSegment(src)
+					if bit >= 0 && err == nil {
+						res.Add(lp.Finding{Kind: "violation", What: "corrupted segment accepted (" + what + ")", Input: "seg dec " + cname + " " + hx(in) + " interrupting segment " + hx(b.Bytes())})
+					} else if bit < 0 && (err != nil || !bytes.Equal(sg.Payload.UncompressedData, p)) {
+						res.Add(lp.Finding{Kind: "violation", What: "segment not decoded to its own payload (" + what + ")", Input: "seg dec " + cname + " " + hx(in) + " interrupting segment " + hx(b.Bytes()),
+							Impl: fmt.Sprintf("err=%v", err)})
+					}
 				}
 			}
 		}
@@ -524,22 +584,30 @@ func runC08(res *lp.Result) {
 		draw func(in []byte) ([]byte, error)
 	}
 	l, s := lz4.Compressor{}, snappy.Compressor{}
+	// the source a compressor reads from is any io.Reader: the kinds callers use are rotated (a *bytes.Buffer, a *bytes.Reader,
+	// a LimitedReader in front of more data, a source delivering a few bytes per Read)
+	srcKind := 0
+	src := func(in []byte) io.Reader {
+		srcKind++
+		res.Count(fmt.Sprintf("source-kind/%d", srcKind%4))
+		switch srcKind % 4 {
+		case 0:
+			return bytes.NewBuffer(append([]byte{}, in...))
+		case 1:
+			return bytes.NewReader(in)
+		case 2:
+			return io.LimitReader(bytes.NewReader(append(append([]byte{}, in...), "what follows is not part of the input"...)), int64(len(in)))
+		default:
+			return &chunkedReader{r: bytes.NewReader(in), n: 1 + rng.Intn(1500)}
+		}
+	}
+	type rw = func(io.Reader, io.Writer) error
+	via := func(f rw) func(in []byte) ([]byte, error) {
+		return func(in []byte) ([]byte, error) { var o bytes.Buffer; e := f(src(in), &o); return append([]byte{}, o.Bytes()...), e }
+	}
 	comps := []comp{
-		{"lz4", func(in []byte) ([]byte, error) {
-			var o bytes.Buffer
-			e := l.CompressWithLength(bytes.NewBuffer(append([]byte{}, in...)), &o)
-			return o.Bytes(), e
-		}, func(in []byte) ([]byte, error) { var o bytes.Buffer; e := l.DecompressWithLength(bytes.NewReader(in), &o); return o.Bytes(), e },
-			func(in []byte) ([]byte, error) {
-				var o bytes.Buffer
-				e := l.Compress(bytes.NewBuffer(append([]byte{}, in...)), &o)
-				return o.Bytes(), e
-			}, func(in []byte) ([]byte, error) { var o bytes.Buffer; e := l.Decompress(bytes.NewReader(in), &o); return o.Bytes(), e }},
-		{"snappy", func(in []byte) ([]byte, error) {
-			var o bytes.Buffer
-			e := s.CompressWithLength(bytes.NewBuffer(append([]byte{}, in...)), &o)
-			return o.Bytes(), e
-		}, func(in []byte) ([]byte, error) { var o bytes.Buffer; e := s.DecompressWithLength(bytes.NewReader(in), &o); return o.Bytes(), e }, nil, nil},
+		{"lz4", via(l.CompressWithLength), via(l.DecompressWithLength), via(l.Compress), via(l.Decompress)},
+		{"snappy", via(s.CompressWithLength), via(s.DecompressWithLength), nil, nil},
 	}
 	var modelInputs [][]byte
 	for _, sz := range sizes {
@@ -588,6 +656,48 @@ func runC08(res *lp.Result) {
 			}
 		}
 	}
+	// "a frame encoded with compression decodes to the same content as one encoded without": two compressed frames back to
+	// back in ONE source of each kind; each must decode to the frame it was made from and nothing may be left
+	for _, v := range gen.Versions {
+		for _, cs := range compSettings() {
+			if cs.comp == nil || (cs.name == "snappy" && v == primitive.ProtocolVersion5) {
+				continue
+			}
+			for _, kind := range []string{"Query", "RowsResult", "Startup", "Batch", "Supported"} {
+				var all bytes.Buffer
+				var want []string
+				for k := 0; k < 2; k++ {
+					g := &gen.G{R: rng, V: v}
+					f := g.Frame(kind)
+					if f == nil {
+						continue
+					}
+					f.SetCompress(true)
+					want = append(want, show.Frame(show.Normalize(f.DeepCopy())))
+					if err := cs.codec.EncodeFrame(f, &all); err != nil {
+						want = want[:len(want)-1]
+					}
+				}
+				data := append([]byte{}, all.Bytes()...)
+				for sk, source := range []io.Reader{bytes.NewBuffer(append([]byte{}, data...)), bytes.NewReader(data), &chunkedReader{r: bytes.NewReader(data), n: 1 + rng.Intn(700)}} {
+					id := fmt.Sprintf("two %s frames v=%d comp=%s back to back in source kind %d bytes=%s", kind, v, cs.name, sk, hx(data))
+					res.Count("frames-back-to-back")
+					res.Case(id, true)
+					for k, w := range want {
+						d, err := cs.codec.DecodeFrame(source)
+						if err != nil {
+							res.Add(lp.Finding{Kind: "violation", What: fmt.Sprintf("compressed frame %d of two back to back does not decode: %s", k, firstWords(err.Error())), Input: id})
+							break
+						}
+						if got := show.Frame(show.Normalize(d)); got != w {
+							res.Add(lp.Finding{Kind: "violation", What: fmt.Sprintf("compressed frame %d of two back to back decodes to other content", k), Input: id, Impl: trunc(got), Model: trunc(w)})
+							break
+						}
+					}
+				}
+			}
+		}
+	}
 	runC08Model(res, modelInputs)
 }
 
@@ -596,4 +706,29 @@ func maxInt(a, b int) int {
 		return a
 	}
 	return b
+}
+
+// interruptedReader delivers data[:cut], then calls hook once, then delivers the rest.
+type interruptedReader struct {
+	data []byte
+	pos  int
+	cut  int
+	done bool
+	hook func()
+}
+
+func (r *interruptedReader) Read(p []byte) (int, error) {
+	if r.pos >= len(r.data) {
+		return 0, io.EOF
+	}
+	end := len(r.data)
+	if r.pos < r.cut {
+		end = r.cut
+	} else if !r.done {
+		r.done = true
+		r.hook()
+	}
+	n := copy(p, r.data[r.pos:end])
+	r.pos += n
+	return n, nil
 }
